@@ -1336,6 +1336,11 @@ def run(chk: core.Check) -> int:
         "docstring, black every docstring); compared views are normalised with inspect.cleandoc on both sides",
         "not visible to PyAst, hence outside the model: definitions nested in compound statements other than class/def (if/for/try/with bodies), and "
         "string constants equal to the last component of a search path (annotate_ancestry gives Constant nodes a _location too)",
+        "several kinds naming ONE file: the model runs them through Sync.syncAt (slot map; tied on every shared-layout case, plan refined kind by kind); "
+        "proved for that loop: sync_frame_shared (chain of per-kind frames) and syncAt_id (= sync for distinct files); C12_partial_* / idempotence are "
+        "stated for three distinct files, the shared layouts are covered by the oracle per (kind, file) pair",
+        "defaults of written targets are compared as typed values read with the stdlib ast (class attributes, signature defaults, add_argument default=), "
+        "not through cdd's parsers and not relative to a control conversion",
         "the real class_ emitter mutates the shared IR (moves `returns` into params); the harness replays the real emissions in the real order on one IR object",
         "interface oracle compares the parameter view (names, order, types, defaults, normalised descriptions) and is applied when the plain conversion "
         "truth->kind (C02/C03 territory) itself preserves that view; the skipped cases are counted in coverage.outside_common_domain",
